@@ -37,6 +37,8 @@ THEOREMS = [
     # batch independence
     "batch_independent_binary", "batch_independent_arith", "batch_independent_or",
     "batch_independent_and", "batch_independent_cmp",
+    # reason tags = forced hypotheses (node level); casts; IS NULL
+    "arith_no_tag", "or_no_tag", "select_no_tag", "cast_pointwise", "isnull_pointwise",
 ]
 
 # The witnesses of the `…_unsound` theorems, as requests (replayed on the implementation).
